@@ -94,6 +94,48 @@ def class_keys(targets, I):
     return out
 
 
+# ---- key orders (Spec/Counts.v, "order of the keys") -------------------------
+def uniq_first(l):
+    out = []
+    for x in l:
+        if x not in out:
+            out.append(x)
+    return out
+
+
+def touches(d, t, i):
+    s, p, o = t
+    if d == "direct":
+        return s[1] == i
+    return o[0] != "L" and o[1] == i
+
+
+def inst_props(d, G, i):
+    return uniq_first([t[1] for t in G if touches(d, t, i)])
+
+
+def inst_keys(d, tau, I, G, i, p):
+    return uniq_first([k for t in G for k in contrib(d, tau, I, t, i, p)])
+
+
+def class_props(d, I, G, c):
+    return uniq_first([p for i, cs in I.items() if c in cs for p in inst_props(d, G, i)])
+
+
+def class_type_keys(d, tau, I, G, c, p):
+    return uniq_first([k for i, cs in I.items() if c in cs for k in inst_keys(d, tau, I, G, i, p)])
+
+
+def cards_of(tau, p, n):
+    if n <= 0:
+        return []
+    return [1] if p == tau else [n, "+"]
+
+
+def class_cards(d, tau, I, G, c, p, k):
+    return uniq_first([x for i, cs in I.items() if c in cs for x in cards_of(tau, p, cnt(d, tau, I, G, i, p, k))])
+
+
 # ---- the tracker (all_classes_mode), transcribed from the abstract triples --
 def track_all(tau, G):
     I = {}
@@ -147,6 +189,28 @@ def check_one(G, inverse):
     for c in prof:
         for d in dirs:
             pd = (prof[c][0] if d == "direct" else prof[c][1]) if inverse else prof[c]
+            # key orders
+            if list(pd.keys()) != class_props(d, I, G, c):
+                bad.append((c, d, "property order", list(pd.keys()), class_props(d, I, G, c)))
+            for p in pd:
+                if list(pd[p].keys()) != class_type_keys(d, TAU, I, G, c, p):
+                    bad.append((c, d, p, "type-key order", list(pd[p].keys()), class_type_keys(d, TAU, I, G, c, p)))
+                for k in pd[p]:
+                    if list(pd[p][k].keys()) != class_cards(d, TAU, I, G, c, p, k):
+                        bad.append((c, d, p, k, "cardinality order", list(pd[p][k].keys()),
+                                    class_cards(d, TAU, I, G, c, p, k)))
+            # instance features: orders too
+            for i, v in idict.items():
+                feats = v[1] if d == "direct" else v[2]
+                if list(feats.keys()) != inst_props(d, G, i):
+                    bad.append((i, d, "instance property order", list(feats.keys()), inst_props(d, G, i)))
+                for p in feats:
+                    if list(feats[p].keys()) != inst_keys(d, TAU, I, G, i, p):
+                        bad.append((i, d, p, "instance key order"))
+                    for k, stored in feats[p].items():
+                        n += 1
+                        if stored != cnt(d, TAU, I, G, i, p, k):
+                            bad.append((i, d, p, k, "cnt", stored, cnt(d, TAU, I, G, i, p, k)))
             # every key any triple contributes in this direction, plus the keys the profile has
             keys = set()
             for t in G:
